@@ -49,7 +49,31 @@ def table_writes(prog, q: str):
     name, attr_form = _terminal(q)
     out = []
     for fi in prog.functions.values():
+        # locals that only ever name the table: cache = self._orbit_cache
+        binds: dict[str, list] = {}
         for st in ast.walk(fi.node):
+            if isinstance(st, ast.Assign):
+                for t in st.targets:
+                    if isinstance(t, ast.Name):
+                        binds.setdefault(t.id, []).append(st.value)
+        alias = {x for x, vs in binds.items()
+                 if all(_is_table(v, name, attr_form) for v in vs)}
+        if alias:
+            class _A(ast.NodeTransformer):
+                def visit_Name(self, n):
+                    if n.id in alias and isinstance(n.ctx, ast.Load):
+                        if attr_form:
+                            return ast.copy_location(ast.Attribute(
+                                ast.Name("self", ast.Load()), name,
+                                ast.Load()), n)
+                        return ast.copy_location(ast.Name(name, ast.Load()), n)
+                    return n
+            from .core import clone
+            view = _A().visit(clone(fi.node))
+            ast.fix_missing_locations(view)
+        else:
+            view = fi.node
+        for st in ast.walk(view):
             if isinstance(st, (ast.Assign, ast.AnnAssign, ast.AugAssign)):
                 targets = st.targets if isinstance(st, ast.Assign) \
                     else [st.target]
@@ -289,3 +313,56 @@ def cache_defects(prog, q: str) -> list[str]:
 
 def is_runtime_cache(prog, q: str) -> bool:
     return bool(table_writes(prog, q))
+
+
+def touching(prog, q: str) -> set[str]:
+    """Functions that read or write the table q."""
+    name, attr_form = _terminal(q)
+    out = set()
+    for fi in prog.functions.values():
+        for n in ast.walk(fi.node):
+            if _is_table(n, name, attr_form):
+                out.add(fi.qual)
+                break
+    return out
+
+
+def report(prog, res, prop: str) -> None:
+    """R-CACHE-KEY / R-CACHE-ALIAS as obligations of property `prop`: every
+    run-time cache outside the inventory that a function reachable from the
+    property's anchors reads or writes."""
+    from .reach import reachable
+    res.rule("R-CACHE-KEY", "a run-time cache outside the rule inventory "
+             "that the property's anchored functions can reach stores each "
+             "value under a key that determines everything the value depends "
+             "on (def-use roots of the value are covered by the roots of the "
+             "key)")
+    res.rule("R-CACHE-ALIAS", "an object held in such a cache is not modified "
+             "in place and handed to the caller")
+    new_names = prog.norm_report.get("new_names", [])
+    caches_ = [q for q in new_names if is_runtime_cache(prog, q)]
+    if not caches_:
+        res.ok("R-CACHE-KEY", "no run-time cache outside the inventory")
+        res.ok("R-CACHE-ALIAS", "no run-time cache outside the inventory")
+        return
+    reach = reachable(prog, prop)
+    for q in caches_:
+        users = touching(prog, q)
+        if not (users & reach):
+            continue
+        defects = cache_defects(prog, q)
+        loc = ""
+        for u in sorted(users):
+            loc = prog.functions[u].loc()
+            break
+        if not defects:
+            res.ok("R-CACHE-KEY", f"{q}: key determines the value", loc)
+            res.ok("R-CACHE-ALIAS", f"{q}: cached objects are not modified",
+                   loc)
+            continue
+        for d in defects:
+            rule = "R-CACHE-ALIAS" if d.startswith("[R-CACHE-ALIAS]") \
+                else "R-CACHE-KEY"
+            fn = d.split("] ", 1)[1].split(":", 1)[0]
+            res.bad(rule, f"{q} in {fn}", loc, d.split("] ", 1)[1],
+                    instance=f"{q}: {rule}")
